@@ -63,12 +63,11 @@ Print Assumptions base_value_range.
    window, unions elsewhere than at the front of a member list or with arms that are not integer aliases, other conditional forms
    (`in` / `not in`, conditions on members of other kinds), conditional members guarded by an inherited member; and the statement
    is about values with in-fuel array lengths (<= 65536 elements).
-   ALSO NOT proved -- the last sentence of the property, for structs:
-     forall tm t buf v, dec ops_now tm k t buf = Ok v -> exists b, enc ops_now tm k t v = Ok b /\ dec ops_now tm k t b = Ok v
-   (decode-encode-decode stability for ANY byte string that decodes; the theorems below start from an admissible VALUE, and a decoded
-   value is not shown to be admissible).  Only its leaf case is a theorem (decoded_int_in_range: a decoded integer re-encodes); for
-   structs it is exercised by the mutated-encoding runs of harness/checks/c01.py only. *)
-From Symv Require Import Cats.StructProofs Cats.StructRoundTrip Cats.StructDecide Gen.SchemaSc Gen.SchemaNc.
+   The last sentence of the property (decode-encode-decode stability for ANY byte string that decodes) is at the end of this file
+   (decoded_admissible_partial ... dec_enc_dec_stable_partial): a decoded value IS admissible, so the theorems below apply to it.
+   What remains open there: that the encoding of a decoded value always succeeds (`enc v = Ok b'` is a premise; at the leaves it is
+   decoded_int_in_range). *)
+From Symv Require Import Cats.StructProofs Cats.StructRoundTrip Cats.StructDecide Cats.StructStable Cats.StructStable2 Gen.SchemaSc Gen.SchemaNc.
 Open Scope string_scope.
 Open Scope list_scope.
 Open Scope Z_scope.
@@ -156,3 +155,99 @@ Example roundtrip_premises_nonvacuous :
   /\ (0 <= 83 /\ 0 < 8 /\ align_up_now 83 8 = 88) /\ (1 <= 2)%nat.
 Proof. vm_compute. repeat split; try reflexivity; try discriminate; repeat constructor. Qed.
 Print Assumptions roundtrip_premises_nonvacuous.
+
+(* ---- decode - encode - decode: the last sentence of the property ("for any byte string that decodes at all ...") ----
+   Proofs: Cats/StructStable.v (members and member loops in the decode direction, unions included: whatever deserialize reads for a
+   member has the shape its kind demands of values) and Cats/StructStable2.v (structs with and without parent, factories, induction on
+   the fuel).
+   Premise on the SCHEMA only, pres_schemab tm = true (a kernel computation; true of both shipped schemas, shipped_schemas_stable_fragment):
+   integer aliases are unsigned and of positive width, byte aliases and enums of positive width; every CONCRETE struct is in the
+   round-trip fragment above (struct_okb), is found under its own name, is found by the factory of its parent when it has one
+   (factory_okb), and each of its members satisfies pres_memberb: the members a value carries are settable; count / byte-size / sizeof /
+   sizeref members point to a member of the expected kind; conditional struct members have a struct type; the "absent" constant of a
+   conditional byte array is not 0; every member of the (non-bitwise) link enum of a union selects one of its arms.
+   decoded_admissible_partial / decoded_admissible_factory_partial: whatever T.deserialize / TFactory.deserialize return for ANY buffer
+   (no well-formedness premise on the bytes, any fuel k) is an admissible value (admf, depth k / 2) -- all member kinds of the fragment.
+   dec_enc_dec_stable_partial / decf_enc_decf_stable_partial: hence, IF the decoded value re-encodes (to b', at any fuel
+   K >= 2 (k / 2) + 1, e.g. K = k for odd k), then b' followed by anything decodes to the SAME value, whose size is |b'|; in
+   dec_enc_dec_stable_odd_fuel_partial the fuel is the same odd number everywhere and the statement reads as in the property: the second
+   decode equals the first and re-encodes to the same bytes.
+   PARTIAL because (1) the schema premise is the fragment, not every wf schema; (2) `enc v = Ok b'` is a premise: that the encoding of
+   a decoded value always succeeds is NOT proved (in the model it can fail only by OverflowError of a computed size / count member,
+   which needs buffers or decoded arrays larger than the member's width - 2^32 bytes for the shipped schemas - or buffers whose
+   elements are not bytes); (3) the interpreter's fuel appears: the round-trip theorem needs one level more than decoding (the value
+   may have been decoded at a fuel at which dec_enc_flat_partial does not apply), so the two fuels agree only for odd k.
+   The re-encoded bytes need not be the decoded ones (stable_premises_nonvacuous: a 3-byte buffer decodes as a 16-byte mosaic; an
+   embedded transaction whose size member says 105 re-encodes with 104). *)
+Theorem decoded_admissible_partial : forall tm k t buf v, pres_schemab tm = true ->
+  dec ops_now tm k t buf = Ok v -> admf tm (Nat.div2 k) t v.
+Proof. exact (fun tm k t buf v Hs => dec_admissible tm Hs k t buf v). Qed.
+Print Assumptions decoded_admissible_partial.
+
+Theorem decoded_admissible_factory_partial : forall tm k t buf v, pres_schemab tm = true ->
+  decf ops_now tm k t buf = Ok v -> admf tm (Nat.div2 k) t v.
+Proof. exact (fun tm k t buf v Hs => decf_admissible tm Hs k t buf v). Qed.
+Print Assumptions decoded_admissible_factory_partial.
+
+Theorem dec_enc_dec_stable_partial : forall tm k K t buf v b' rest, pres_schemab tm = true ->
+  (2 * Nat.div2 k + 1 <= K)%nat -> is_abs tm t = false ->
+  dec ops_now tm k t buf = Ok v -> enc ops_now tm K t v = Ok b' ->
+  dec ops_now tm K t (b' ++ rest) = Ok v /\ size ops_now tm K t v = Ok (Z.of_nat (length b')) /\ (0 < length b')%nat.
+Proof. exact (fun tm k K t buf v b' rest Hs => stable_dec tm Hs k K t buf v b' rest). Qed.
+Print Assumptions dec_enc_dec_stable_partial.
+
+Theorem decf_enc_decf_stable_partial : forall tm k K t buf v b' rest, pres_schemab tm = true ->
+  (2 * Nat.div2 k + 1 <= K)%nat -> is_abs tm t = true ->
+  decf ops_now tm k t buf = Ok v -> enc ops_now tm K t v = Ok b' ->
+  decf ops_now tm K t (b' ++ rest) = Ok v /\ size ops_now tm K t v = Ok (Z.of_nat (length b')) /\ (0 < length b')%nat.
+Proof. exact (fun tm k K t buf v b' rest Hs => stable_decf tm Hs k K t buf v b' rest). Qed.
+Print Assumptions decf_enc_decf_stable_partial.
+
+Theorem dec_enc_dec_stable_odd_fuel_partial : forall tm m t buf v b', pres_schemab tm = true -> is_abs tm t = false ->
+  dec ops_now tm (2 * m + 1)%nat t buf = Ok v -> enc ops_now tm (2 * m + 1)%nat t v = Ok b' ->
+  (forall rest, dec ops_now tm (2 * m + 1)%nat t (b' ++ rest) = Ok v) /\
+  (forall v2, dec ops_now tm (2 * m + 1)%nat t b' = Ok v2 -> v2 = v /\ enc ops_now tm (2 * m + 1)%nat t v2 = Ok b') /\
+  size ops_now tm (2 * m + 1)%nat t v = Ok (Z.of_nat (length b')).
+Proof. exact (fun tm m t buf v b' Hs => stable_dec_odd tm Hs m t buf v b'). Qed.
+Print Assumptions dec_enc_dec_stable_odd_fuel_partial.
+
+(* both shipped schemas meet the schema premise: every concrete struct of Symbol and NEM is covered *)
+Example shipped_schemas_stable_fragment : pres_schemab sc_schema = true /\ pres_schemab nc_schema = true.
+Proof. vm_compute. split; reflexivity. Qed.
+Print Assumptions shipped_schemas_stable_fragment.
+
+(* non-vacuity with ALL premises together, on shipped structs and concrete buffers:
+   - a 3-byte buffer decodes as a Symbol UnresolvedMosaic (int.from_bytes of short slices) and re-encodes to 16 bytes
+     (dec_enc_dec_stable_partial with k = K = 3, dec_enc_dec_stable_odd_fuel_partial with m = 1; decoded_admissible_partial);
+   - an embedded hash lock whose size member says 105, followed by 3 more bytes, decodes through EmbeddedTransactionFactory at the
+     fuel of the differential checks (24) and re-encodes at fuel 25 with size 104 (decf_enc_decf_stable_partial,
+     decoded_admissible_factory_partial) *)
+Example stable_premises_nonvacuous :
+  pres_schemab sc_schema = true
+  /\ ((2 * Nat.div2 3 + 1 <= 3)%nat /\ is_abs sc_schema "UnresolvedMosaic" = false
+      /\ dec ops_now sc_schema 3 "UnresolvedMosaic" [5; 1; 2] = Ok (VStruct "UnresolvedMosaic" [("mosaic_id", VInt 131333); ("amount", VInt 0)])
+      /\ enc ops_now sc_schema 3 "UnresolvedMosaic" (VStruct "UnresolvedMosaic" [("mosaic_id", VInt 131333); ("amount", VInt 0)])
+         = Ok ([5; 1; 2] ++ repeat 0 13))
+  /\ (let buf := [105; 0; 0; 0; 0; 0; 0; 0] ++ repeat 7 32 ++ [0; 0; 0; 0; 1; 152; 72; 65]
+                 ++ [6; 0; 0; 0; 0; 0; 0; 0; 9; 0; 0; 0; 0; 0; 0; 0; 1; 0; 0; 0; 0; 0; 0; 0] ++ repeat 9 32 ++ [1; 2; 3] in
+      let v := VStruct "EmbeddedHashLockTransactionV1"
+                 [("signer_public_key", VBytes (repeat 7 32)); ("version", VInt 1); ("network", VInt 152); ("type", VInt 16712);
+                  ("mosaic", VStruct "UnresolvedMosaic" [("mosaic_id", VInt 6); ("amount", VInt 9)]); ("duration", VInt 1);
+                  ("hash", VBytes (repeat 9 32))] in
+      (2 * Nat.div2 24 + 1 <= 25)%nat /\ is_abs sc_schema "EmbeddedTransaction" = true
+      /\ decf ops_now sc_schema 24 "EmbeddedTransaction" buf = Ok v
+      /\ match enc ops_now sc_schema 25 "EmbeddedTransaction" v with Ok b' => firstn 8 b' = [104; 0; 0; 0; 0; 0; 0; 0] /\ length b' = 104%nat | _ => False end).
+Proof. vm_compute. repeat split; try reflexivity; repeat constructor. Qed.
+Print Assumptions stable_premises_nonvacuous.
+
+(* why `enc v = Ok b'` cannot simply be dropped from the theorems above: `bytes` is `list Z` in the model and nothing above asks the
+   buffer to consist of bytes; an element outside 0..255 decodes (plain integer members are not range-checked on read) to a value
+   that does not re-encode.  For buffers of bytes (wf_bytes) the question is open in the development (see (2) above). *)
+Example decoded_reencodes_refuted_for_non_bytes :
+  exists buf v, wf_bytes buf = false /\ dec ops_now sc_schema 3 "ReceiptSource" buf = Ok v
+                /\ enc ops_now sc_schema 3 "ReceiptSource" v = Crash "OverflowError".
+Proof.
+  exists [4294967296], (VStruct "ReceiptSource" [("primary_id", VInt 4294967296); ("secondary_id", VInt 0)]).
+  vm_compute. repeat split; reflexivity.
+Qed.
+Print Assumptions decoded_reencodes_refuted_for_non_bytes.
